@@ -6,6 +6,9 @@ pub mod c03;
 pub mod c05;
 pub mod c18;
 pub mod c19;
+pub mod c07;
+pub mod c10;
+pub mod c16;
 pub mod c04;
 pub mod c14;
 pub mod c13;
@@ -28,6 +31,9 @@ pub fn run(p: &Params, rep: &mut Report) -> bool {
         "C05" => c05::run(p, rep),
         "C18" => c18::run(p, rep),
         "C19" => c19::run(p, rep),
+        "C07" => c07::run(p, rep),
+        "C10" => c10::run(p, rep),
+        "C16" => c16::run(p, rep),
         "C04" => c04::run(p, rep),
         "C14" => c14::run(p, rep),
         "C13" => c13::run(p, rep),
@@ -52,6 +58,9 @@ pub fn replay(prop: &str, kind: &str, text: &str, seed: u64, rep: &mut Report) -
         "C05" => c05::replay(kind, text, seed, rep),
         "C18" => c18::replay(kind, text, seed, rep),
         "C19" => c19::replay(kind, text, seed, rep),
+        "C07" => c07::replay(kind, text, seed, rep),
+        "C10" => c10::replay(kind, text, seed, rep),
+        "C16" => c16::replay(kind, text, seed, rep),
         "C04" => c04::replay(kind, text, seed, rep),
         "C14" => c14::replay(kind, text, seed, rep),
         "C13" => c13::replay(kind, text, seed, rep),
